@@ -153,7 +153,7 @@ structure NgInv (m0 : Mem) (bk bl0 fa cell bu be : Nat) (names0 : List (List UIn
   loc : ∃ v6 v7, st.loc = [.ptr bk 0, .ptr cell 0, .ptr bu 0, .ptr be 0, .int (sel.length : Int), .int (i : Int), v6, v7, .int 0]
   agree : ∀ b, b < m0.length → b ∉ [bk, bl0, fa] → st.mem[b]? = m0[b]?
   grows : m0.length ≤ st.mem.length
-  dest : ∃ bl' gl', GlMem st.mem bk bl' gl' ∧ (bl' = bl0 ∨ m0.length ≤ bl') ∧ (∀ blk, st.mem[bk]? = some blk → blk.writable = true) ∧ bk ≠ bl' ∧
+  dest : ∃ bl' gl', GlMem st.mem bk bl' gl' ∧ (bl' = bl0 ∨ m0.length ≤ bl') ∧ (∀ kb blk, m0[bk]? = some kb → st.mem[bk]? = some blk → KfKeep kb blk) ∧ (gl' ≠ [] → bk ≠ bl') ∧
       (∀ x, x ∈ gl' → x.1 ≠ bk ∧ x.1 ≠ bl') ∧ gl'.length ≤ gl0len + sel.length ∧
       gl'.map (·.2) = (if sel.length = 0 then names0 else Econf.addGroup names0 Econf.NONE) ∧
       ∀ j (h : j < sel.length), EntMem st.mem fa (7 * j) (Econf.cpyEntry (sel[j])) [bk, bl']
@@ -170,14 +170,8 @@ theorem NgInv.frame {m0 : Mem} {bk bl0 fa cell bu be : Nat} {names0 : List (List
   have hg := h.grows
   refine ⟨⟨v6, v7, rfl⟩, fun b hb hav => by rw [hm b (by omega)]; exact h.agree b hb hav, by simp; omega, ?_, ⟨ablk, by rw [hm fa (by omega)]; exact a1, a2, a3, a4, a5⟩⟩
   -- the destination and the copies: nothing they use has changed
-  have hG' : GlMem mem' bk bl' gl' := by
-    obtain ⟨kblk, k1, k2, k3, k4⟩ := d1.kf
-    obtain ⟨gblk, g1, g2, g3, g4⟩ := d1.arr
-    refine ⟨⟨kblk, by rw [hm bk (List.getElem?_eq_some_iff.1 k1).1]; exact k1, k2, k3, k4⟩,
-      ⟨gblk, by rw [hm bl' (List.getElem?_eq_some_iff.1 g1).1]; exact g1, g2, g3, fun i hi => ?_⟩⟩
-    obtain ⟨e1, e2⟩ := g4 i hi
-    exact ⟨e1, by rw [cstr_congr (hm _ (cstr_lt e2))]; exact e2⟩
-  refine ⟨bl', gl', hG', d2, fun blk hb => d3 blk (by rw [← hm bk (by omega)]; exact hb), d4, d5, d6, d7, fun j hj => (d8 j hj).mono (fun b hb _ => hm b hb)⟩
+  have hG' : GlMem mem' bk bl' gl' := d1.grow hm
+  refine ⟨bl', gl', hG', d2, fun kb blk hk hb => d3 kb blk hk (by rw [← hm bk (by omega)]; exact hb), d4, d5, d6, d7, fun j hj => (d8 j hj).mono (fun b hb _ => hm b hb)⟩
 
 def noneLit : Block := { cells := (([95, 110, 111, 110, 101, 95] : List UInt8) ++ [0]).map some, writable := false }
 
@@ -348,9 +342,11 @@ theorem ng_round {m0 : Mem} {bk bl0 fa cell bu be bea : Nat} {es : List Econf.En
         simpa using ng_idx mm (.ptr bk 0) (.ptr cell 0) (.ptr bu 0) (.ptr be 0) (.int (i : Int)) (.ptr (mem ++ [noneLit]).length 0) (.int 1) (.int 0) (selUpTo es i).length (by omega)
       have hfalt := C.fa_lt
       have hgrow : m0.length ≤ (mem ++ [noneLit]).length := h1.grows
+      obtain ⟨kb0, hkb0⟩ : ∃ kb0, m0[bk]? = some kb0 := ⟨_, List.getElem?_eq_getElem C.bk_lt⟩
+      obtain ⟨kbM, hkbM, _⟩ := d1.obj
       obtain ⟨m', bl'', gl'', hex, hEnt, hG', hnames, hfr, ⟨ablk', b1, b2, b3, b4, b5, b6⟩, hlen', hblor, hkw', hne', hd', hgll, hfreshv⟩ :=
         C_fe_append (mem ++ [noneLit]) bk bl' cell fa bea (7 * i) gl' es[i] _ _ ngSrc (.incdec (.var 4) true true .u64) 6 (selUpTo es i).length cap
-          d1 hE d3 d4 d5 (by omega) (C.lines _ (List.getElem_mem hi)) fuel (by omega) rfl rfl (by simp) (by decide) hsrc hidx rfl
+          d1 hE (fun blk hb => (d3 kb0 blk hkb0 hb).1) d4 d5 (by omega) (C.lines _ (List.getElem_mem hi)) fuel (by omega) rfl rfl (by simp) (by decide) hsrc hidx rfl
           cblk hcM c2 c3 ⟨hcav.1, hbl'ne cell hclt hcav.2.1⟩ ablk a1 a2 a3 a5 a4 ⟨C.fa_ne.1, hbl'ne fa C.fa_lt C.fa_ne.2⟩ (by have := C.room; omega)
       refine ⟨_, { mem := m', loc := [.ptr bk 0, .ptr cell 0, .ptr bu 0, .ptr be 0, .int (((selUpTo es i).length + 1 : Nat) : Int), .int (i : Int),
             .ptr (mem ++ [noneLit]).length 0, .int 1, .int 0] },
@@ -377,7 +373,7 @@ theorem ng_round {m0 : Mem} {bk bl0 fa cell bu be bea : Nat} {es : List Econf.En
           simp only [List.mem_cons, List.not_mem_nil, or_false, not_or] at hav
           rw [hfr b (by omega) hav.1 (hbl'ne b hb hav.2.1) hav.2.2]
           exact h1.agree b hb (by simp [hav])
-        · refine ⟨bl'', gl'', hG', ?_, hkw', hne', hd', by simp; omega, ?_, ?_⟩
+        · refine ⟨bl'', gl'', hG', ?_, fun kb blk hk hb => (d3 kb kbM hk hkbM).trans (hkw' kbM blk hkbM hb), hne', hd', by simp; omega, ?_, ?_⟩
           · rcases hblor with e | e
             · rw [e]; exact d2
             · right; omega
@@ -446,7 +442,7 @@ def ngSel (us es : List Econf.Entry) : List Econf.Entry := if Econf.hasGroup us 
 theorem insert_nogroup_exec (m : Mem) (bk bl0 fa cell bu bua be bea : Nat) (us es : List Econf.Entry) (gl0 : List (Nat × List UInt8)) (cap : Nat)
     (hU : KfMem m bu bua (entsOf us)) (husmall : (us.length : Int) + 1 < 18446744073709551616)
     (C : NgCtx m bk bl0 fa cell be bea es gl0.length cap)
-    (hG : GlMem m bk bl0 gl0) (hkw : ∀ blk, m[bk]? = some blk → blk.writable = true) (hne : bk ≠ bl0) (hd : ∀ x, x ∈ gl0 → x.1 ≠ bk ∧ x.1 ≠ bl0)
+    (hG : GlMem m bk bl0 gl0) (hkw : ∀ blk, m[bk]? = some blk → blk.writable = true) (hne : gl0 ≠ [] → bk ≠ bl0) (hd : ∀ x, x ∈ gl0 → x.1 ≠ bk ∧ x.1 ≠ bl0)
     (ablk : Block) (ha1 : m[fa]? = some ablk) (ha2 : ablk.live = true) (ha3 : ablk.writable = true) (ha4 : ablk.cells = []) (ha5 : ablk.slots.length = 7 * cap)
     (fuel : Nat) (hf : gl0.length + es.length + us.length + 2 < fuel) :
     ∃ m' loc' bl' gl', exec fuel LeafFns.insert_nogroup.body
@@ -456,7 +452,7 @@ theorem insert_nogroup_exec (m : Mem) (bk bl0 fa cell bu bua be bea : Nat) (us e
       gl'.map (·.2) = (if (ngSel us es).length = 0 then gl0.map (·.2) else Econf.addGroup (gl0.map (·.2)) Econf.NONE) ∧
       (∀ j (h : j < (ngSel us es).length), EntMem m' fa (7 * j) (Econf.cpyEntry ((ngSel us es)[j])) [bk, bl']) ∧
       (∀ b, b < m.length → b ∉ [bk, bl0, fa] → m'[b]? = m[b]?) ∧ m.length ≤ m'.length ∧
-      (bl' = bl0 ∨ m.length ≤ bl') ∧ (∀ blk, m'[bk]? = some blk → blk.writable = true) ∧ bk ≠ bl' ∧ (∀ x, x ∈ gl' → x.1 ≠ bk ∧ x.1 ≠ bl') ∧
+      (bl' = bl0 ∨ m.length ≤ bl') ∧ (∀ kb blk, m[bk]? = some kb → m'[bk]? = some blk → KfKeep kb blk) ∧ (gl' ≠ [] → bk ≠ bl') ∧ (∀ x, x ∈ gl' → x.1 ≠ bk ∧ x.1 ≠ bl') ∧
       gl'.length ≤ gl0.length + (ngSel us es).length ∧
       ∃ ablk', m'[fa]? = some ablk' ∧ ablk'.live = true ∧ ablk'.writable = true ∧ ablk'.cells = [] ∧ ablk'.slots.length = 7 * cap := by
   have w0 : wrapTo .u64 0 = 0 := wrapTo_u64_small 0 (by decide) (by decide)
@@ -483,13 +479,7 @@ theorem insert_nogroup_exec (m : Mem) (bk bl0 fa cell bu bua be bea : Nat) (us e
     simp [evalArgs, evalE, evalL, readPlace, noneLit, bind, Except.bind]
   have w0' : wrapTo .i32 0 = 0 := by decide
   have w1' : wrapTo .i32 1 = 1 := by decide
-  have hGM : GlMem (m ++ [noneLit]) bk bl0 gl0 := by
-    obtain ⟨kblk, k1, k2, k3, k4⟩ := hG.kf
-    obtain ⟨gblk, g1, g2, g3, g4⟩ := hG.arr
-    refine ⟨⟨kblk, by rw [hMget bk (List.getElem?_eq_some_iff.1 k1).1]; exact k1, k2, k3, k4⟩,
-      ⟨gblk, by rw [hMget bl0 (List.getElem?_eq_some_iff.1 g1).1]; exact g1, g2, g3, fun i hi => ?_⟩⟩
-    obtain ⟨e1, e2⟩ := g4 i hi
-    exact ⟨e1, by rw [cstr_congr (hMget _ (cstr_lt e2))]; exact e2⟩
+  have hGM : GlMem (m ++ [noneLit]) bk bl0 gl0 := hG.grow hMget
   have hbklt := C.bk_lt
   have hfalt := C.fa_lt
   by_cases hhas : Econf.hasGroup us Econf.NONE = true
@@ -510,7 +500,7 @@ theorem insert_nogroup_exec (m : Mem) (bk bl0 fa cell bu bua be bea : Nat) (us e
     have hsel : ngSel us es = [] := by simp [ngSel, hhas]
     rw [hsel]
     refine ⟨m ++ [noneLit], [.ptr bk 0, .ptr cell 0, .ptr bu 0, .ptr be 0, .int 0, .undef, .undef, .undef, .int 1], bl0, gl0, by simp [exec, evalE, evalL, readPlace, bind, Except.bind], hGM, by simp, by simp,
-      fun b hb _ => hMget b hb, by simp, Or.inl rfl, fun blk hb => hkw blk (by rw [← hMget bk hbklt]; exact hb), hne, hd, by simp,
+      fun b hb _ => hMget b hb, by simp, Or.inl rfl, KfKeep.same hkw (hMget bk hbklt), hne, hd, by simp,
       ⟨ablk, by rw [hMget fa hfalt]; exact ha1, ha2, ha3, ha4, ha5⟩⟩
   · -- no group-less entry in the base: the loop runs
     have hhas' : Econf.hasGroup us Econf.NONE = false := by simpa using hhas
@@ -523,7 +513,7 @@ theorem insert_nogroup_exec (m : Mem) (bk bl0 fa cell bu bua be bea : Nat) (us e
         { mem := m ++ [noneLit], loc := [.ptr bk 0, .ptr cell 0, .ptr bu 0, .ptr be 0, .int 0, .int 0, .undef, .undef, .int 0] } := by
       rw [hsel0]
       refine ⟨⟨.undef, .undef, by simp⟩, fun b hb _ => hMget b hb, by simp, ?_, ⟨ablk, by rw [hMget fa hfalt]; exact ha1, ha2, ha3, ha4, ha5⟩⟩
-      exact ⟨bl0, gl0, hGM, Or.inl rfl, fun blk hb => hkw blk (by rw [← hMget bk hbklt]; exact hb), hne, hd, by simp, by simp, by simp⟩
+      exact ⟨bl0, gl0, hGM, Or.inl rfl, KfKeep.same hkw (hMget bk hbklt), hne, hd, by simp, by simp, by simp⟩
     obtain ⟨R, hloop, hinvR⟩ := ng_loop C fuel (by omega) _ hinv0
     obtain ⟨v6, v7, hlocR⟩ := hinvR.loc
     obtain ⟨memR, locR⟩ := R
@@ -660,7 +650,7 @@ theorem ngSel_model (us es : List Econf.Entry) : (ngSel us es).map Econf.cpyEntr
 theorem C_insert_nogroup (m : Mem) (bk bl0 fa cell bu bua be bea : Nat) (us es : List Econf.Entry) (gl0 : List (Nat × List UInt8)) (cap : Nat)
     (hU : KfMem m bu bua (entsOf us)) (husmall : (us.length : Int) + 1 < 18446744073709551616)
     (C : NgCtx m bk bl0 fa cell be bea es gl0.length cap)
-    (hG : GlMem m bk bl0 gl0) (hkw : ∀ blk, m[bk]? = some blk → blk.writable = true) (hne : bk ≠ bl0) (hd : ∀ x, x ∈ gl0 → x.1 ≠ bk ∧ x.1 ≠ bl0)
+    (hG : GlMem m bk bl0 gl0) (hkw : ∀ blk, m[bk]? = some blk → blk.writable = true) (hne : gl0 ≠ [] → bk ≠ bl0) (hd : ∀ x, x ∈ gl0 → x.1 ≠ bk ∧ x.1 ≠ bl0)
     (ablk : Block) (ha1 : m[fa]? = some ablk) (ha2 : ablk.live = true) (ha3 : ablk.writable = true) (ha4 : ablk.cells = []) (ha5 : ablk.slots.length = 7 * cap)
     (fuel : Nat) (hf : gl0.length + es.length + us.length + 2 < fuel) :
     ∃ m' loc' bl' gl', exec fuel LeafFns.insert_nogroup.body
@@ -744,7 +734,7 @@ theorem ctx_ok : NgCtx mem 0 1 3 2 9 10 es 0 3 :=
     simp [es] at he
     rcases he with rfl | rfl | rfl <;> decide⟩
 
-theorem dest_ok : GlMem mem 0 1 [] := ⟨⟨_, rfl, rfl, rfl, rfl⟩, ⟨_, rfl, rfl, rfl, fun i hi => by simp at hi⟩⟩
+theorem dest_ok : GlMem mem 0 1 [] := Or.inl ⟨⟨_, rfl, rfl, rfl, rfl⟩, ⟨_, rfl, rfl, rfl, fun i hi => by simp at hi⟩⟩
 
 /-- what the model says for this pair: exactly the first group-less definition, its quote flag cleared -/
 theorem model_says : Econf.insertNoGroup us es = [{ group := Econf.NONE, key := [120], value := some [50], cb := none, ca := some [99], line := 2, quotes := false }] := by
